@@ -264,7 +264,18 @@ _GT = [dict(nf=nf, perm=p) for nf in (2, 3) for p in _perms(nf)]
 
 AX = [axioms.tanh_axioms]
 
+from props.c09 import h_pressure as _h_pressure
+
 HARNESSES = [
+    # the set of wall widths and the relative offsets are found by a bounded minimisation over ALL
+    # fields but the pinned first one: every free field gets the same configured window (widths in
+    # [lo, hi]/Tn, offsets in the offset bounds, which include negative values -- whichever field comes
+    # first, the others may sit on either side of it).  Harness shared with C09.
+    HarnessDef("minimiser-window-field-blind", _h_pressure,
+               [dict(M=3, nf=2, nparticles=1, includeOffEq=True, regrid=True)],
+               [dict(M=3, nf=2, nparticles=1, includeOffEq=True, regrid=True),
+                dict(M=4, nf=2, nparticles=1, includeOffEq=True, regrid=False)], max_paths=6, timeout_s=60,
+               encodes=[EOMM.EOM._intermediatePressureResults], random_validation=1),
     HarnessDef("wallProfile-relabelling", h_profile, _PQ, _PT, max_paths=10, timeout_s=60, axioms=AX,
                encodes=[EOMM.EOM.wallProfile], random_validation=1),
     HarnessDef("action-relabelling", h_action, _AQ, _AT, max_paths=10, timeout_s=60, axioms=AX,
